@@ -9,7 +9,7 @@ from corr import Session, prog_hash
 from tasks import fresh_session
 
 ID = "C01"
-THEOREM_FILES = ["Summer.Props.C01", "Summer.Props.C01Step", "Summer.Props.C01Source", "Summer.Props.C01Rates", "Summer.Props.C04Weights"]
+THEOREM_FILES = ["Summer.Props.C01", "Summer.Props.C01Step", "Summer.Props.C01Source", "Summer.Props.C01Rates", "Summer.Props.C04Weights", "Summer.Props.C07Pipeline"]
 TASK = "task"
 LEVEL = "proof"
 RULE = ("(a) programs from harness/gen.py (all nine flow kinds, plain/age/strain stratifications, adjustments, mixing, time/state/parameter "
